@@ -68,7 +68,7 @@ CHECK_TEXT = {
               "Known findings (4) printed.",
               "Not proof for the property as a whole: the information_schema / SHOW SQL is DuckDB's. Trusted: A-DUCK, A-SQLGLOT, A-WF, A-PURE."),
     "C10": _o("Deductive slice: every statement goes through the whole transform pipeline in the fixed order and a database created by a statement gets the macros the rewrites rely on; "
-              "VALUES columns are named COLUMN1..n; DATEADD of a day-or-larger part to a DATE is cast back to DATE; REGEXP_REPLACE long forms are rejected, short ones made global; TO_NUMBER's optional arguments are told apart as documented; TO_DECIMAL/TO_NUMERIC and the TRY_ forms cast to DECIMAL(p default 38, s default 0) with CAST resp. TRY_CAST and reject a format argument; TO_DATE casts to DATE, TO_TIMESTAMP to TIMESTAMP (NTZ), TO_TIMESTAMP_NTZ parses with the ISO format; IDENTIFIER(x) is the unquoted identifier x; SAMPLE defaults to BERNOULLI; ARRAY_AGG (windowed or not) is wrapped in TO_JSON once; DATEADD over a string literal casts it to TIMESTAMP. "
+              "VALUES columns are named COLUMN1..n; DATEADD of a day-or-larger part to a DATE is cast back to DATE; REGEXP_REPLACE long forms are rejected, short ones made global; TO_NUMBER's optional arguments are told apart as documented; TO_NUMBER/TO_DECIMAL/TO_NUMERIC and the TRY_ forms (dispatchers and helper) cast to DECIMAL(p default 38, s default 0) with CAST resp. TRY_CAST and reject a format argument; TO_DATE casts to DATE, TO_TIMESTAMP to TIMESTAMP (NTZ), TO_TIMESTAMP_NTZ parses with the ISO format; IDENTIFIER(x) is the unquoted identifier x; SAMPLE defaults to BERNOULLI; ARRAY_AGG (windowed or not) is wrapped in TO_JSON once; DATEADD over a string literal casts it to TIMESTAMP. "
               "Bounded: each function of the property x argument lists x syntactic contexts against Snowflake's documented results. Known findings (4) printed.",
               "Not proof for the property as a whole: value/type semantics of each rewrite are DuckDB's on the rewritten SQL; the other node-level rewrite functions are not under contract (A-TX)."),
     "C11": _o("Deductive slice: the order-sensitive JSON rewrites are applied in the order their correctness depends on, for every statement; v['k'] / v[n] become the extraction of $.k / $[n]; every path extraction is parenthesised whatever its parent; "
